@@ -258,14 +258,26 @@ def finish(prop, spec, tier, seed, parts, t0):
     if not cov.get("samples"):
         # every worker stopped at its very first case (a change that breaks the coder outright): the reported lines are the sample
         cov["samples"] = [l for l in out if l.startswith("#") or l.startswith("VIOLATION")][:4] or ["no case ran to completion"]
+    if nviol:
+        # a case on which a violation was observed is an evaluated, non-trivial case by definition (the target trapped before it could
+        # count itself): the distinct replay files enter the counts, so that a run cut short by a change that breaks every case at
+        # once still describes what it did
+        vcases = {l.split("replay=", 1)[1] for l in out if l.startswith("VIOLATION") and "replay=" in l}
+        cov["violating_cases"] = len(vcases)
+        cov["evaluations"] = max(cov["evaluations"], len(vcases))
+        cov["distinct_nontrivial"] = max(cov["distinct_nontrivial"], len(vcases))
     try:
         write_evidence(prop, tier, seed, spec["level"], cov, spec.get("assumptions", []), wall, nviol)
     except RuntimeError as e:
-        # never lose the verdict lines over the evidence file: print them, then report the broken evidence
+        # never lose the verdict lines over the evidence file: print them, then report the evidence problem
         for l in out:
             print(l)
+        if nviol:
+            print(f"# note: evidence/{prop}.json holds the true counts of a run that stopped at violations almost at once; they are below the "
+                  "minimum counts of EVIDENCE.schema.json")
+            return 1
         print(f"CHECK-BROKEN {prop}: {e}")
-        return 1 if nviol else 2
+        return 2
     for l in out:
         print(l)
     if nviol:
